@@ -130,7 +130,7 @@ class World:
         # an object that is still in its slot keeps its basis (re-basing is only ever done on copies); the molar meaning is
         # compared by the projection, which is basis-free
         rebased = [s for s, (oid, b) in before.items() if self.rx.get(s) is not None and id(self.rx[s]) == oid and self.rx[s]._basis != b]
-        obs = dict(exc=exc, same=False, reduced_m=[], held_agree=self._held_agree(), too_big=False, rebased=bool(rebased), tagged_ok=True)
+        obs = dict(exc=exc, same=False, reduced_m=[], held_agree=self._held_agree(), too_big=False, rebased=bool(rebased), tagged_ok=True, refused=False)
         obs.update(extra)
         return obs
 
@@ -288,6 +288,21 @@ class World:
             finally:
                 tmo.reaction.CHECK_FEASIBILITY = True
             return dict(reduced_m=[fr(x) for x in f.imol.data.to_array()], same=cp is self.set)
+        elif op == 'system_rebased':
+            members = [r.copy() for r in self.set.reactions]
+            sys2 = tmo.ReactionSystem(*members)
+            for r in members:
+                r.basis = a['basis']
+            f = tmo.Stream(None, thermo=self.th, phase='g', T=400)
+            f.copy_like(self.feed)
+            tmo.reaction.CHECK_FEASIBILITY = False
+            try:
+                sys2(f)
+            except RuntimeError as e:
+                return dict(refused=True, msg=str(e)[:100])
+            finally:
+                tmo.reaction.CHECK_FEASIBILITY = True
+            return dict(reduced_m=[fr(x) for x in f.imol.data.to_array()], refused=False)
         elif op == 'tagged_probe':
             # the same reaction with every chemical tagged with the gas phase (2-d stoichiometry): copying, re-basing, scaling and
             # combining must leave the operand as it was (stoichiometry array, basis, conversion) and return new objects
@@ -393,6 +408,8 @@ def random_op(rng, st, ops, slots=SLOTS):
         return op, dict()
     if op == 'set_copy':
         return op, dict(basis=rng.choice([NONE, 'wt', 'wt', 'mol']))
+    if op == 'system_rebased':
+        return op, dict(basis=rng.choice(['wt', 'wt', 'mol']))
     if op == 'tagged_probe':
         return op, dict(x=x, how=rng.choice(['copy_basis', 'copy_then_set', 'add_other_basis', 'imul_copy', 'neg']))
     if op in ('to_wt', 'to_mol'):
